@@ -534,6 +534,34 @@ func (m *model) effect(f *Frame, cx mctx, e Effect, pos int) (ok bool) {
 			m.w.sstore(cx.addr, key, val)
 			j(val)
 		}
+	case EJournalRef:
+		name := RefName(m.s.Kid(f.ID), pos)
+		has := false
+		for _, k := range m.res.Keys[cx.addr] {
+			if k == name {
+				has = true
+			}
+		}
+		if !has {
+			m.res.Keys[cx.addr] = append(m.res.Keys[cx.addr], name)
+		}
+		if cx.static {
+			return false // the first SSTORE of the group faults
+		}
+		idx := cx.node
+		if idx < 0 {
+			idx = 0
+		}
+		if m.res.Journal[cx.addr] == nil {
+			m.res.Journal[cx.addr] = map[string]map[int][][]byte{}
+		}
+		if m.res.Journal[cx.addr][name] == nil {
+			m.res.Journal[cx.addr][name] = map[int][][]byte{}
+		}
+		m.w.sstore(cx.addr, refKey(m.s.Kid(f.ID), pos), 2*40+1)
+		for _, b := range []bool{false, true, false} {
+			appendCollapsed(m.res.Journal[cx.addr][name], idx, RefData(f.ID, pos, b))
+		}
 	}
 	return true
 }
@@ -639,7 +667,7 @@ func (r *MResult) Addresses(s *Scn) []common.Address {
 func (s *Scn) Slots() []uint64 {
 	var out []uint64
 	s.Walk(func(f *Frame, static bool, depth int, parent *Frame) {
-		out = append(out, sKey(s.Kid(f.ID), 1), sKey(s.Kid(f.ID), 2), FlagSlot(f.ID), RdsSlot(f.ID))
+		out = append(out, sKey(s.Kid(f.ID), 1), sKey(s.Kid(f.ID), 2), refKey(s.Kid(f.ID), 1), refKey(s.Kid(f.ID), 2), FlagSlot(f.ID), RdsSlot(f.ID))
 	})
 	return out
 }
